@@ -190,9 +190,10 @@ func (sp *ServiceProvider) Metadata() *EntityDescriptor {
 
 	var keyDescriptors []KeyDescriptor
 	if sp.Certificate != nil {
-		certBytes := sp.Certificate.Raw
+		// one X509Certificate element per certificate: the SP's own first, then the chain
+		certificates := []X509Certificate{{Data: base64.StdEncoding.EncodeToString(sp.Certificate.Raw)}}
 		for _, intermediate := range sp.Intermediates {
-			certBytes = append(certBytes, intermediate.Raw...)
+			certificates = append(certificates, X509Certificate{Data: base64.StdEncoding.EncodeToString(intermediate.Raw)})
 		}
 		// Assertions are encrypted to the SP with RSA key transport, so only an RSA
 		// certificate is advertised for encryption.
@@ -201,9 +202,7 @@ func (sp *ServiceProvider) Metadata() *EntityDescriptor {
 				Use: "encryption",
 				KeyInfo: KeyInfo{
 					X509Data: X509Data{
-						X509Certificates: []X509Certificate{
-							{Data: base64.StdEncoding.EncodeToString(certBytes)},
-						},
+						X509Certificates: certificates,
 					},
 				},
 				EncryptionMethods: []EncryptionMethod{
@@ -219,9 +218,7 @@ func (sp *ServiceProvider) Metadata() *EntityDescriptor {
 				Use: "signing",
 				KeyInfo: KeyInfo{
 					X509Data: X509Data{
-						X509Certificates: []X509Certificate{
-							{Data: base64.StdEncoding.EncodeToString(certBytes)},
-						},
+						X509Certificates: certificates,
 					},
 				},
 			})
